@@ -269,6 +269,8 @@ class SampleOnOrientedGrid:
     properties = ("C05", "C04")
     tol = 2e-3
 
+    APIS = ("ImageBatch.sample", "batch-of-2:target=grid-of-item-0", "SampleImage", "TransformImage", "AlignImage")
+
     def cases(self, tier):
         for D in (2, 3):
             for mode in ("linear", "nearest"):
@@ -278,26 +280,66 @@ class SampleOnOrientedGrid:
                             if tier == "quick" and D == 3 and (k or mode == "nearest"):
                                 continue
                             yield {"D": D, "mode": mode, "source_ac": acs, "target_ac": act, "geometry": k}
+        # the same specification through the other entry points (module API with its precomputed target->source matrix;
+        # batch whose first item already lies on the target grid)
+        for api in self.APIS[1:]:
+            for D in (2, 3):
+                for acs in (True, False):
+                    for act in (True, False):
+                        if tier == "quick" and D == 3 and acs == act:
+                            continue
+                        yield {"D": D, "mode": "linear", "source_ac": acs, "target_ac": act, "geometry": 0, "api": api}
 
     def run(self, case, K):
         from deepali.data import ImageBatch
 
         D = case["D"]
+        api = case.get("api", self.APIS[0])
         K.rng.seed(1000 * case["geometry"] + 17 * D + (3 if case["source_ac"] else 0) + (5 if case["target_ac"] else 0))
         ssz = (5, 4) if D == 2 else (3, 4, 3)
         tsz = (4, 6) if D == 2 else (3, 3, 2)
+        if api.startswith("batch-of-2"):
+            tsz = ssz  # items of one batch have the same data shape
         src, ss = rational_grid(K, "s", D, ssz, case["source_ac"])
         tgt, ts = rational_grid(K, "t", D, tsz, case["target_ac"], near=[E.evaluate(v, {}) for v in ss.c], fine=True)
         # move the target near the source centre and make it small enough to overlap
         shape = ssz[::-1]
         ev = K.reals("v", (1, 1) + shape)
-        batch = ImageBatch(K.tensor(ev), src)
-        res = K.call(batch.sample, tgt, mode=case["mode"], padding=0)
-        if not K.ensure_returns(res):
-            return
-        data = K.val(res.tensor())
         oshape = tsz[::-1]
-        K.ensure("shape", E.bconst(tuple(data.shape[2:]) == oshape and tuple(res.grid().shape) == oshape), text=Q4S)
+        if api == "ImageBatch.sample":
+            batch = ImageBatch(K.tensor(ev), src)
+            res = K.call(batch.sample, tgt, mode=case["mode"], padding=0)
+            if not K.ensure_returns(res):
+                return
+            data = K.val(res.tensor())
+            K.ensure("shape", E.bconst(tuple(data.shape[2:]) == oshape and tuple(res.grid().shape) == oshape), text=Q4S)
+        elif api.startswith("batch-of-2"):
+            e0 = K.reals("w", (1, 1) + shape)
+            batch = ImageBatch(K.tensor(np.concatenate([e0, ev], axis=0)), [tgt, src])
+            res = K.call(batch.sample, tgt, mode=case["mode"], padding=0)
+            if not K.ensure_returns(res):
+                return
+            full = K.val(res.tensor())
+            K.ensure("grids", E.bconst(all(g == tgt for g in res.grids()) and len(res.grids()) == 2), text=Q5 + " [every image of the result lies on the target grid]")
+            K.ensure_eq("item-0-unchanged", full[0:1], e0, text=Q5 + " [the image that already lies on the target grid is returned unchanged]")
+            data = full[1:2]
+        else:
+            import deepali.modules as M
+
+            x = K.tensor(ev)
+            if api == "SampleImage":
+                m = M.SampleImage(tgt, src, sampling=case["mode"], padding=0)
+                res = K.call(m, tgt.coords(), x)
+            elif api == "TransformImage":
+                m = M.TransformImage(tgt, src, sampling=case["mode"], padding=0)
+                res = K.call(m, None, x)
+            else:
+                m = M.AlignImage(tgt, src, sampling=case["mode"], padding=0)
+                res = K.call(m, None, x)
+            if not K.ensure_returns(res):
+                return
+            data = K.val(res)
+            K.ensure("shape", E.bconst(tuple(data.shape[2:]) == oshape), text=Q4S)
         A, t = SG.point_map(ts, "grid", ss, "grid")
         ninside = 0
         for idx in np.ndindex(*oshape):
